@@ -67,6 +67,8 @@ type Map struct {
 	n       int
 }
 
+type chanVal struct{}
+
 type deferred struct {
 	fn    Value
 	args  []Value
@@ -189,7 +191,7 @@ func zero(t types.Type) Value {
 		}
 		return s
 	case *types.Chan:
-		panic(unsupported("channels"))
+		return (*chanVal)(nil) // channel operations themselves are unsupported
 	case *types.Map:
 		return (*Map)(nil)
 	case *types.Signature:
